@@ -1158,6 +1158,44 @@ let hl_remove heqb l h =
     else { hl_before = l.hl_before; hl_after = l.hl_after; hl_entries = e }
   | None -> l
 
+type outcome =
+| Finished
+| Aborted
+
+(** val step :
+    ('a2 -> 'a1 -> ('a2 list * 'a1) * bool) -> 'a2 list -> 'a1 ->
+    ((('a2 * 'a2 list) * 'a1) * bool) option **)
+
+let step run q st =
+  match rev q with
+  | [] -> None
+  | e :: _ ->
+    let rest = removelast q in
+    let before = length rest in
+    let (p, ab) = run e st in
+    let (sent, st') = p in
+    let q1 = app rest sent in
+    let q2 = app (firstn before q1) (rev (skipn before q1)) in
+    Some (((e, (if ab then q1 else q2)), st'), ab)
+
+(** val flush :
+    ('a2 -> 'a1 -> ('a2 list * 'a1) * bool) -> ('a2 list -> 'a1 -> 'a1) ->
+    nat -> 'a2 list -> 'a1 -> 'a2 list -> (('a2 list * 'a1) * outcome) option **)
+
+let rec flush run unwind fuel q st tr =
+  match fuel with
+  | O -> None
+  | S f ->
+    (match step run q st with
+     | Some p ->
+       let (p0, ab) = p in
+       let (p1, st') = p0 in
+       let (e, q') = p1 in
+       if ab
+       then Some (((app tr (e :: [])), (unwind q' st')), Aborted)
+       else flush run unwind f q' st' (app tr (e :: []))
+     | None -> Some ((tr, st), Finished))
+
 (** val ctag_has_drop : n -> bool **)
 
 let ctag_has_drop t =
@@ -2694,43 +2732,57 @@ let unwind_queue q w =
     in
     ev_drop w' it.qi_targeted tag it.qi_ev) q w
 
+type wst = world * fail option
+
+(** val run_w :
+    (hinfo -> logent -> n -> script) -> qitem -> wst -> (qitem
+    list * wst) * bool **)
+
+let run_w beh it s =
+  let (p, fl) = deliver_one beh it (fst s) in
+  let (sent, w1) = p in
+  ((sent, (w1, fl)), (match fl with
+                      | Some _ -> true
+                      | None -> false))
+
+(** val unwind_w : qitem list -> wst -> wst **)
+
+let unwind_w q s =
+  match snd s with
+  | Some f ->
+    (match f with
+     | FPanic k ->
+       let w2 = unwind_queue q (fst s) in
+       ((match spawn_all w2 with
+         | ROk (_, w3) -> w3
+         | RFail (_, w3) -> w3), (Some (FPanic k)))
+     | FUB _ -> s)
+  | None -> s
+
 (** val flush_loop :
     (hinfo -> logent -> n -> script) -> nat -> qitem list -> world ->
     world * fail option **)
 
-let rec flush_loop beh fuel q w =
-  match fuel with
-  | O -> (w, (Some (FPanic (Npos (XO (XO (XO XH)))))))
-  | S f ->
-    (match rev q with
-     | [] -> ((set_resets w (N.add w.w_resets (Npos XH))), None)
-     | it :: _ ->
-       let rest = removelast q in
-       let before = length rest in
-       let (p, fl) = deliver_one beh it w in
-       let (sent, w1) = p in
-       let q1 = app rest sent in
-       (match fl with
-        | Some f0 ->
-          (match f0 with
-           | FPanic k ->
-             let w2 = unwind_queue q1 w1 in
-             ((match spawn_all w2 with
-               | ROk (_, w3) -> w3
-               | RFail (_, w3) -> w3), (Some (FPanic k)))
-           | FUB s -> (w1, (Some (FUB s))))
-        | None ->
-          flush_loop beh f (app (firstn before q1) (rev (skipn before q1))) w1))
+let flush_loop beh fuel q w =
+  match flush (run_w beh) unwind_w fuel q (w, None) [] with
+  | Some p ->
+    let (p0, o) = p in
+    let (_, w0) = p0 in
+    let (w', fl) = w0 in
+    (match o with
+     | Finished -> ((set_resets w' (N.add w'.w_resets (Npos XH))), None)
+     | Aborted -> (w', fl))
+  | None -> (w, (Some (FPanic (Npos (XO (XO (XO XH)))))))
 
 (** val fUEL : nat **)
 
 let fUEL =
   pow (S (S O)) (S (S (S (S (S (S (S (S (S (S (S (S (S (S O))))))))))))))
 
-(** val flush :
+(** val flush0 :
     (hinfo -> logent -> n -> script) -> qitem list -> world -> unit res **)
 
-let flush beh q w =
+let flush0 beh q w =
   let (w', o) = flush_loop beh fUEL q w in
   (match o with
    | Some f -> RFail (f, w')
@@ -2781,7 +2833,7 @@ let add_global_event beh =
            then note w1 tag ev.ev_id
            else w1
          in
-         flush beh ({ qi_targeted = false; qi_idx = (fst k); qi_target =
+         flush0 beh ({ qi_targeted = false; qi_idx = (fst k); qi_target =
            kEY_NULL; qi_ev = ev } :: []) w2
        | RFail (e, w') -> RFail (e, (ev_drop w' false tag ev)))
   in add_global_event0
@@ -2821,7 +2873,7 @@ let send_global beh =
            then note w1 tag ev.ev_id
            else w1
          in
-         flush beh ({ qi_targeted = false; qi_idx = (fst k); qi_target =
+         flush0 beh ({ qi_targeted = false; qi_idx = (fst k); qi_target =
            kEY_NULL; qi_ev = ev } :: []) w2
        | RFail (e, w') -> RFail (e, (ev_drop w' false tag ev)))
   in send_global0
@@ -2899,7 +2951,7 @@ let add_targeted_event beh tag w =
 let send_to beh tag target ev w =
   match add_targeted_event beh tag w with
   | ROk (k, w1) ->
-    flush beh ({ qi_targeted = true; qi_idx = (fst k); qi_target = target;
+    flush0 beh ({ qi_targeted = true; qi_idx = (fst k); qi_target = target;
       qi_ev = ev } :: []) w1
   | RFail (e, w') -> RFail (e, (ev_drop w' true tag ev))
 
@@ -3330,7 +3382,7 @@ let remove_component beh k w =
                    a.a_rows
             else []) (slab_iter w2.w_archs)
         in
-        rbind (flush beh q w2) (fun _ w3 ->
+        rbind (flush0 beh q w2) (fun _ w3 ->
           let hs =
             map (fun h -> h.h_key)
               (filter (fun h -> smem (fst k) h.h_refcomps)
